@@ -97,10 +97,11 @@ def gen_cases(ctx, pe, ncases):
     kinds_un = sorted(UNARY)
     kinds_bin = sorted(BINARY)
     tries = 0
+    cobs_combos, cobs_count = [], [0]
     while len(cases) < ncases and tries < 20 * ncases:
         tries += 1
         idx = len(cases)
-        family = rng.choice(["unary", "binary", "binary", "binary", "ternary", "array", "cobs", "tree", "covobs"])
+        family = rng.choice(["unary", "binary", "binary", "binary", "ternary", "array", "cobs", "cobs", "tree", "covobs"])
         lay = obsutil.gen_layout(rng, nmin=5, nmax=18 if ctx.tier == "quick" else 60, mixed=True)
         mode = rng.choice(obsutil.DERIVE_MODES)
         rt = "tol30"
@@ -177,20 +178,53 @@ def gen_cases(ctx, pe, ncases):
                 lay2 = obsutil.derive_layout(rng, lay, mode)
                 ar, ai = obsutil.make_obs(pe, rng, lay, "int"), obsutil.make_obs(pe, rng, lay, "int")
                 br, bi = obsutil.make_obs(pe, rng, lay2, "int"), obsutil.make_obs(pe, rng, lay2, "int")
-                prod = pe.CObs(ar, ai) * pe.CObs(br, bi)
-                part = rng.choice(["real", "imag"])
-                ops = [ar, br, ai, bi]
+                # complex arithmetic in every operand combination: CObs with CObs, a real Obs on either side, a complex number on either side
+                # stratified: every (operator, operand kinds, part) combination in turn, products and quotients first
+                if not cobs_combos:
+                    for ops_ in (["/", "*"], ["+", "-"]):
+                        blk = [(o_, k_, p_) for o_ in ops_ for k_ in [("cobs", "cobs"), ("obs", "cobs"), ("cobs", "obs"), ("num", "cobs"), ("cobs", "num")] for p_ in ("real", "imag")]
+                        rng.shuffle(blk)
+                        cobs_combos.extend(blk)
+                cop, kinds, part_sel = cobs_combos[cobs_count[0] % len(cobs_combos)]
+                cobs_count[0] += 1
+                br = br + 3.0        # keep the divisor away from zero
+                num = complex(rng.choice([2.0, -1.5, 0.5]), rng.choice([1.0, -0.75, 0.25]))
+
+                def operand(kind, re_o, im_o):
+                    if kind == "cobs":
+                        return pe.CObs(re_o, im_o), [re_o, im_o]
+                    if kind == "obs":
+                        return re_o, [re_o, 0.0]
+                    return num, [num.real, num.imag]
+                z1, p1 = operand(kinds[0], ar, ai)
+                z2, p2 = operand(kinds[1], br, bi)
+                parts4 = p1 + p2                                   # [re1, im1, re2, im2]: observables or plain numbers
+                prod = {"*": lambda a, b: a * b, "/": lambda a, b: a / b, "+": lambda a, b: a + b, "-": lambda a, b: a - b}[cop](z1, z2)
+                cf = {"*": lambda a, b: a * b, "/": lambda a, b: a / b, "+": lambda a, b: a + b, "-": lambda a, b: a - b}[cop]
+                part = part_sel
+                res = prod.real if part == "real" else prod.imag
+                pos = [k for k in range(4) if isinstance(parts4[k], pe.Obs)]
+                if cop in "+-":      # the real part of a sum involves the real parts only (the library does not touch the others), likewise the imaginary part
+                    pos = [k for k in pos if k % 2 == (0 if part == "real" else 1)]
+                if not pos or not isinstance(res, pe.Obs):
+                    continue
+                ops = [parts4[k] for k in pos]
+                consts = [None if isinstance(x, pe.Obs) else float(x) for x in parts4]
+
+                def fl(v, pos=pos, consts=consts, cf=cf, part=part):
+                    full = list(consts)
+                    for k, x in zip(pos, v):
+                        full[k] = x
+                    w = cf(complex(full[0], full[1]), complex(full[2], full[3]))
+                    return w.real if part == "real" else w.imag
                 vs = [float(o.value) for o in ops]
-                if part == "real":
-                    res = prod.real
-                    fl = lambda v: v[0] * v[1] - v[2] * v[3]
-                    gs = [vs[1], vs[0], -vs[3], -vs[2]]
-                else:
-                    res = prod.imag
-                    fl = lambda v: v[2] * v[1] + v[0] * v[3]
-                    gs = [vs[3], vs[2], vs[1], vs[0]]
+                c1 = complex(*[float(getattr(x, "value", x)) for x in parts4[:2]])
+                c2 = complex(*[float(getattr(x, "value", x)) for x in parts4[2:]])
+                d1, d2 = {"*": (c2, c1), "/": (1 / c2, -c1 / c2 ** 2), "+": (1, 1), "-": (1, -1)}[cop]
+                dfull = [complex(d1), 1j * d1, complex(d2), 1j * d2]        # holomorphic: d/d(re) = dw/dz, d/d(im) = i dw/dz
+                gs = [(dfull[k].real if part == "real" else dfull[k].imag) for k in pos]
                 val = fl(vs)
-                descr = {"family": family, "op": "CObs*CObs %s part" % part, "mode": mode}
+                descr = {"family": family, "op": "%s %s %s, %s part" % (kinds[0], cop, kinds[1], part), "mode": mode}
             elif family == "tree":
                 # path independence under the property's hypothesis: all operands share their replica sets
                 mode2 = rng.choice(["same", "subset_prefix", "subset_stride", "subset_random", "superset", "overlap", "shifted_odd"])
